@@ -245,6 +245,9 @@ namespace vr
             shm->setfull[s].store(1);
             return false;
         }
+        // the run's deadline has passed (or enough violations were collected): long cases should wind up; the
+        // run is then reported incomplete (exhaustive:false) by the parent
+        bool stopping() const { return shm && shm->stop.load(std::memory_order_relaxed) != 0; }
         bool state(uint64_t h) { return add(STATES, h); }
         bool nontrivial(uint64_t h) { return add(NONTRIVIAL, h); }
         bool nontrivial(const std::string& s) { return add(NONTRIVIAL, hash_str(s)); }
